@@ -104,6 +104,8 @@ class Sanitizer:
         self.ok_types = {V.JSUndefined, V.JSNull, bool, int, float, str, V.JSFunction, mvm.ForInIterator,
                          mvm.ForOfIterator, CompiledFunction, V.JSBoundMethod}
         self.JSObject = V.JSObject
+        self.internal_types = {mvm.ForInIterator, mvm.ForOfIterator, CompiledFunction}
+        self.containers = 0
         self.exposed = {id(f) for f in exposed}
         self.keep = list(exposed)
         self.initial = set()
@@ -159,6 +161,16 @@ class Sanitizer:
             return "callable:%s:%s" % (t.__name__, qn or repr(v)[:60])
         return "host:%s" % t.__name__
 
+    def held_ok(self, v):
+        """A value HELD by script data (array element, property value): interpreter-internal operands (loop iterators, code objects)
+        are legitimate on the operand stack only."""
+        t = type(v)
+        if t in self.internal_types:
+            return "internal:%s" % t.__name__
+        if t in self.ok_types:
+            return None
+        return self.classify(v)
+
     def mon(self, vm):
         st = vm.stack
         n = len(st)
@@ -173,6 +185,21 @@ class Sanitizer:
                     self.seen_types[t.__name__] = self.seen_types.get(t.__name__, 0) + 1
                     continue
                 why = self.classify(v)
+                if not why and k == 1:
+                    # a container on top of the stack: what it holds (first/last few) must be script values
+                    els = getattr(v, "_elements", None)
+                    held = []
+                    if isinstance(els, list) and els:
+                        held = els[:6] + els[-6:] if len(els) > 12 else els
+                    props = getattr(v, "_properties", None)
+                    if isinstance(props, dict) and props and len(props) <= 12:
+                        held = list(held) + list(props.values())
+                    for x in held:
+                        why = self.held_ok(x)
+                        if why:
+                            why = "held-in-%s:%s" % (t.__name__, why)
+                            break
+                    self.containers += 1
                 if why and len(self.bad) < 5:
                     fr = vm.call_stack[-1] if vm.call_stack else None
                     self.bad.append([why, fr.func.name if fr else None, fr.ip if fr else None])
@@ -503,6 +530,18 @@ def main(ctx):
         progs = [progen.random_program(rng) for _ in range(300 if ctx.quick else 6000)] + \
                 [progen.closure_heavy(rng) for _ in range(100 if ctx.quick else 2000)]
         progs += caught_error_programs() + native_value_programs() + operator_value_programs()
+        # control-flow corner programs whose operand-stack discipline is the hazard (what a stray slot holds is an interpreter-internal
+        # object): jumps out of finally over pending completions, in callees whose call is an operand inside for-in/for-of/switch
+        from vf import skel
+        for oi, (kind, a, b, c, body) in enumerate(skel.override_bodies()):
+            g = "function keep(v) { return v; }\nfunction g() { for (var I = 0; I < 2; I++) { " + body + " } return 'N'; }\n"
+            for cn in ("forin-array", "forof-sum", "switch-arg", "array", "arg1"):
+                if ctx.quick and (oi + len(cn)) % 3 and cn != "forin-array":
+                    continue
+                progs.append(skel.PRELUDE + skel.CTX_PRELUDE + g + "var held = []; function log(a, b) { held.push(b); }\ntry { " + skel.CONTEXTS[cn] + " } catch (E) { }\nheld;")
+        for si, (ident, src) in enumerate(skel.enumerate_skeletons(depth2=True, contexts=["forin-array", "array"])):
+            if si % (7 if ctx.quick else 1) == ctx.seed % (7 if ctx.quick else 1):
+                progs.append(src)
         rres = ep.map({"mod": "checks.C03", "fn": "w_probe"}, [{"progs": progs[i:i + 50], "log": True} for i in range(0, len(progs), 50)],
                       batch=1, timeout=600)
         hitems = [(vi, rt) for vi in range(len(HOST_VALUES)) for rt in HOST_ROUTES]
@@ -584,6 +623,8 @@ def main(ctx):
                 ctx.violation(("sanitizer", e["bad"][0][0], "program"), {"case": progs[pi], "bad": e["bad"]})
             if "HOST" in json.dumps([e.get("ret"), e.get("py"), e.get("log")]):
                 ctx.violation(("host-value-observable", "program"), {"case": progs[pi], "observed": str(e)[:500]})
+            if e.get("o") == "hosterr":
+                ctx.violation(("host-exception", str((e.get("err") or [None])[0]), "program"), {"case": progs[pi], "observed": str(e)[:500]})
             ctx.nontrivial(("prog", h(progs[pi])))
             pi += 1
     # ---- values entering from the embedder
